@@ -23,7 +23,11 @@ TUPLES = [
     "extr:0;fmg:0;strat:0;maxit:150;div2:0;cycle:1;pre:2;post:2",  # t8  = t0 + other cycle / smoothing steps
     "extr:0;fmg:0;strat:0;maxit:3;div2:0;norm:2;abstol:1e-4",      # t9  = t0 + iteration limit / norm / tolerance
     "extr:1;fmg:1;strat:1;maxit:150;div2:0;cycle:2;fmg_cycle:1;fmg_it:1;reltol:1e-5",  # t10 = t1 + other cycles
+    # the refinement loop of convergence_order: explicit level cap above what the coarser grid allows, F-cycle, divideBy2 growing
+    "extr:1;fmg:0;strat:0;maxit:150;div2:0;maxlev:6;cycle:2",     # t11
+    "extr:1;fmg:0;strat:0;maxit:150;div2:1;maxlev:6;cycle:2",     # t12
 ]
+ALPHABET = {"quick": [0, 1, 2, 3, 4, 5, 11, 12], "thorough": [0, 1, 2, 3, 4, 5, 6, 7, 11, 12]}
 NOSETUP = {0: [8, 9], 8: [0, 9], 9: [0, 8], 1: [10], 10: [1]}   # tuples that differ in solve-time options only
 
 
@@ -42,20 +46,22 @@ def base_line():
 
 
 def histories(tier):
-    nt = 8 if tier == "thorough" else 6
+    alpha = ALPHABET["thorough" if tier == "thorough" else "quick"]
+    nt = len(alpha)
     depth = 3
     out = []
     for d in range(1, depth + 1):
-        for tup in itertools.product(range(nt), repeat=d):
+        for tup in itertools.product(alpha, repeat=d):
             if tier != "thorough" and d == 3 and len(set(tup)) < 2:
                 continue
             for ns in itertools.product((1, 2), repeat=d):
                 out.append(list(zip(tup, ns)))
     if tier == "thorough":
-        # depth 4 with one solve per block (a hidden field that needs three earlier blocks to reach its bad value)
-        for tup in itertools.product(range(nt), repeat=4):
+        # depth 4 (a hidden field that needs three earlier blocks to reach its bad value)
+        for tup in itertools.product(alpha, repeat=4):
             if len(set(tup)) >= 2:
-                out.append([(t, 1) for t in tup])
+                for ns in itertools.product((1, 2), repeat=4):
+                    out.append(list(zip(tup, ns)))
     # solve-without-setup after an option change that does not need a new setup (negative count = no setup())
     for a, bs in NOSETUP.items():
         for b in bs:
@@ -65,7 +71,7 @@ def histories(tier):
                 for c in NOSETUP.get(b, []):
                     out.append([(a, n1), (b, -1), (c, -1)])
                 if tier == "thorough":
-                    for t in range(nt):
+                    for t in alpha:
                         out.append([(t, 1), (a, n1), (b, -1)])
     return out
 
@@ -90,12 +96,14 @@ def main(tier):
     binary = _build()
     hs = histories(tier)
     base = base_line()
+    # every history twice: later blocks call every setter again (delta=0) / only the setters of the options that changed (delta=1)
+    hs = [(h, dl) for h in hs for dl in ((0, 1) if len(h) > 1 else (0,))]
     lines = []
-    for i, h in enumerate(hs):
-        lines.append(("h%05d" % i, gl.line_of("h%05d" % i, base, hist=",".join("%d:%d" % (t, n) for t, n in h))))
+    for i, (h, dl) in enumerate(hs):
+        lines.append(("h%05d" % i, gl.line_of("h%05d" % i, base, hist=",".join("%d:%d" % (t, n) for t, n in h), optdelta=dl)))
     res = gl.run_cases(binary, lines, chunk=8)
     # reference observation of each tuple: a process that has handled nothing but that tuple (one line, one process)
-    nt_used = sorted({t for h in hs for t, _ in h})
+    nt_used = sorted({t for h, _ in hs for t, _ in h})
     canon_lines = [("k%02d" % t, gl.line_of("k%02d" % t, base, hist="%d:1" % t)) for t in nt_used]
     canon_res = gl.run_cases(binary, canon_lines, chunk=1)
     canon = {}
@@ -105,15 +113,16 @@ def main(tier):
             canon[t] = fo.split(":", 1)[1]
     fresh_compared = 0
     states, transitions = set(), 0
-    for i, h in enumerate(hs):
+    for i, (h, dl) in enumerate(hs):
         r = res.get("h%05d" % i, {"status": "crash", "kind": "missing"})
         hist_s = ",".join("%d:%d" % (t, n) for t, n in h)
+        mode_s = "only changed options set again" if dl else "all options set again"
         if r.get("status") == "crash":
             rep.violation("crash:%s" % r.get("kind"), "history %s killed the solver: %s" % (hist_s, gl.crash_line(r.get("stderr"))),
-                          {"history": hist_s, "tuples": TUPLES})
+                          {"history": hist_s, "tuples": TUPLES, "delta": dl})
             continue
         if r.get("status") != "ok":
-            rep.violation("exception", "history %s threw: %s" % (hist_s, r.get("what")), {"history": hist_s, "tuples": TUPLES})
+            rep.violation("exception", "history %s threw: %s" % (hist_s, r.get("what")), {"history": hist_s, "tuples": TUPLES, "delta": dl})
             continue
         transitions += int(r["steps"]) + sum(2 if n > 0 else 1 for _, n in h)
         for st in r.get("trace", "").split("|"):
@@ -129,14 +138,14 @@ def main(tier):
                 if obs != canon[t]:
                     rep.violation("process-history:t%d" % t, "history [%s]: a FRESHLY constructed solver with options t%d gives (%s) in this "
                                   "process, but (%s) in a process that handled nothing else: process-global state leaks between solver "
-                                  "objects" % (hist_s, t, obs, canon[t]), {"history": hist_s, "tuples": TUPLES, "kind": "process", "tuple": t})
+                                  "objects" % (hist_s, t, obs, canon[t]), {"history": hist_s, "tuples": TUPLES, "kind": "process", "tuple": t, "delta": dl})
         if int(r["bad"]) >= 0:
             w = r["what"]
-            rep.violation(key_of(h, w), "history [%s] (blocks tuple:solves; tuples %s): a solve on the reused object differs from a "
-                          "fresh object with the same options: %s" % (hist_s, {("t%d" % t): TUPLES[t] for t, _ in h}, w),
-                          {"history": hist_s, "tuples": TUPLES})
+            rep.violation(key_of(h, w), "history [%s] (blocks tuple:solves; %s between blocks; tuples %s): a solve on the reused object differs from a "
+                          "fresh object with the same options: %s" % (hist_s, mode_s, {("t%d" % t): TUPLES[t] for t, _ in h}, w),
+                          {"history": hist_s, "tuples": TUPLES, "delta": dl})
     cov = {
-        "states": len(states) * (11 if tier == "thorough" else 9),
+        "states": len(states) * (len(ALPHABET["thorough" if tier == "thorough" else "quick"]) + 3),
         "transitions": transitions,
         "traces_validated_against_impl": len(hs),
         "fresh_object_observations_compared_with_fresh_process": fresh_compared,
@@ -144,14 +153,16 @@ def main(tier):
         "distinct_nontrivial": len(hs),
         "distinct_hidden_states": sorted(states)[:12],
         "rule": "all histories of <= %d blocks (option tuple, setup, 1 or 2 solves) over %d option tuples on one object; thorough "
-                "adds all 4-block histories with one solve per block "
+                "adds all 4-block histories (at least two distinct tuples) "
                 "(17x32 / 33x64, Shafranov, PolarR6, Zoni gyro), plus histories in which solve-time options (cycle type, smoothing "
                 "steps, iteration limit, norm type, tolerances, FMG cycle) are changed and solve() is called WITHOUT a new setup(); "
                 "after EVERY solve the observation (solution bitwise, iterations, "
                 "reduction factor, both error figures) is compared with a freshly constructed solver; states = distinct hidden "
                 "state strings (levels, residual history length, error history length, full_grid_smoothing, iterations) x tuples; "
-                "transitions = setter blocks, setup() and solve() calls" % (3, 8 if tier == "thorough" else 6),
-        "samples": [",".join("%d:%d" % (t, n) for t, n in hs[0]), ",".join("%d:%d" % (t, n) for t, n in hs[len(hs) // 2]), TUPLES[2]],
+                "transitions = setter blocks, setup() and solve() calls" % (3, len(ALPHABET["thorough" if tier == "thorough" else "quick"])),
+        "samples": [",".join("%d:%d" % (t, n) for t, n in hs[0][0]), ",".join("%d:%d" % (t, n) for t, n in hs[len(hs) // 2][0]), TUPLES[2]],
+        "option_application_modes": "every multi-block history runs twice: all setters called again in every block / only the setters of "
+                                    "options whose value changed",
         "exhaustive": True,
     }
     return rep.finish(cov, ["input functions (geometry, coefficients, source) are fixed per object, as the API requires",
@@ -166,7 +177,7 @@ def replay(path):
         t = rp["tuple"]
         outs = []
         for _ in range(2):
-            a = gl.run_cases(binary, [("r0", gl.line_of("r0", base, hist=rp["history"]))]).get("r0", {}).get("freshobs", "")
+            a = gl.run_cases(binary, [("r0", gl.line_of("r0", base, hist=rp["history"], optdelta=rp.get("delta", 0)))]).get("r0", {}).get("freshobs", "")
             b = gl.run_cases(binary, [("r1", gl.line_of("r1", base, hist="%d:1" % t))]).get("r1", {}).get("freshobs", "")
             got = [p.split(":", 1)[1] for p in a.split("/") if p.startswith("t%d:" % t)]
             outs.append((got, b.split(":", 1)[1] if ":" in b else None))
@@ -181,7 +192,7 @@ def replay(path):
         return 0
     outs = []
     for _ in range(2):
-        res = gl.run_cases(binary, [("r0", gl.line_of("r0", base, hist=rp["history"]))])
+        res = gl.run_cases(binary, [("r0", gl.line_of("r0", base, hist=rp["history"], optdelta=rp.get("delta", 0)))])
         r = res.get("r0", {})
         outs.append((r.get("status"), r.get("bad"), r.get("what")))
     if outs[0] != outs[1]:
